@@ -565,6 +565,14 @@ type guardFuncWalk struct {
 	file  string
 	sites []gSite
 	unres []gUnres
+	hook  guardHook // optional observer (facts_callers.go); nil for the Guards group itself
+}
+
+// guardHook lets another fact group observe the same walk (same function names, same lock sets).
+type guardHook interface {
+	onExpr(c *guardCtx, held lockSet, e ast.Expr)                         // every expression visited by expr
+	onStmtCall(c *guardCtx, held lockSet, call *ast.CallExpr, tag string) // the call of a `go` / `defer` statement
+	onLit(c *guardCtx, name, tag string, fl *ast.FuncLit)                 // a function literal, with the name it is walked under
 }
 
 type guardEnv map[string]string // identifier -> base type name
@@ -979,11 +987,17 @@ func (c *guardCtx) funcLit(fl *ast.FuncLit, tag string) {
 	if n := c.nlits[tag]; n > 1 {
 		name = fmt.Sprintf("%s%d", name, n)
 	}
+	if h := c.fw.hook; h != nil {
+		h.onLit(c, name, tag, fl)
+	}
 	c.fw.walkFunc(name, nil, fl.Type, fl.Body, c.env)
 }
 
 // call handles a deferred / go call: a literal callee is a function of its own.
 func (c *guardCtx) call(held lockSet, call *ast.CallExpr, tag string) {
+	if h := c.fw.hook; h != nil {
+		h.onStmtCall(c, held, call, tag)
+	}
 	if fl, ok := call.Fun.(*ast.FuncLit); ok {
 		c.funcLit(fl, tag)
 		c.exprs(held, "R", call.Args...)
@@ -1029,6 +1043,9 @@ func (c *guardCtx) exprs(held lockSet, kind string, es ...ast.Expr) {
 }
 
 func (c *guardCtx) expr(held lockSet, e ast.Expr) {
+	if h := c.fw.hook; h != nil && e != nil {
+		h.onExpr(c, held, e)
+	}
 	switch x := e.(type) {
 	case nil:
 	case *ast.SelectorExpr:
